@@ -204,7 +204,7 @@ pub fn replay(args: &Args, path: &str) -> i32 {
     report.set("evaluations", json!(1));
     report.set("distinct_nontrivial", json!(0));
     report.set("rule", json!("replay of one stored case"));
-    report.finish()
+    finish_replay(&report)
 }
 
 pub fn run(args: &Args) -> i32 {
@@ -214,12 +214,12 @@ pub fn run(args: &Args) -> i32 {
     let report = Report::new(args, "model_checking");
     let env = |k: &str, d: usize| std::env::var(k).ok().and_then(|s| s.parse().ok()).unwrap_or(d);
     // bounds
-    let max_nodes = env("VERIF_C14_NODES", args.tier.pick(3, 4)) as u8;
+    let max_nodes = env("VERIF_C14_NODES", 4) as u8;
     let depth_for = |n: u8| -> usize {
         let d = match n {
-            1 => args.tier.pick(4, 7),
-            2 => args.tier.pick(4, 7),
-            3 => args.tier.pick(4, 6),
+            1 => args.tier.pick(5, 7),
+            2 => args.tier.pick(5, 7),
+            3 => args.tier.pick(5, 6),
             _ => args.tier.pick(3, 5),
         };
         env(&format!("VERIF_C14_DEPTH{n}"), d)
